@@ -228,6 +228,31 @@ def validate(prog, rng, n, native_violations=None):
     return len(cases), mism
 
 
+def normalized_probe(rng, n, rep):
+    """native probe of normalized() on integers of every width (1..12 words) with 0..40 trailing zeros"""
+    cases = []
+    for i in range(n):
+        core = rng.choice([1, 7, 10 ** rng.randint(0, 30) + 1, rng.randint(1, 10 ** rng.randint(1, 90)), 2 ** rng.randint(1, 200) + 1, 2 ** 64 - 1, 2 ** 64 + 1])
+        tz = rng.choice([0, 1, 2, 5, 19, 20, 21, 22, rng.randint(0, 40)])
+        cases.append((rng.choice([1, -1]) * core * 10 ** tz, rng.choice([0, 3, -3, tz, rng.randint(-50, 50)])))
+    cases += [(10 ** k, 0) for k in range(0, 60)] + [(0, 5), (0, -5)]
+    outs = H.replay_lines(['unop\tnormalized\t%s' % H.dec_str(x, s) for x, s in cases])
+    for (x, s), out in zip(cases, outs):
+        if x == 0:
+            exp = H.dec_str(0, 0)
+        else:
+            tzc = 0
+            while x % 10 ** (tzc + 1) == 0:
+                tzc += 1
+            exp = H.dec_str(x // 10 ** tzc, s - tzc)
+        if out != exp:
+            tzc = 0
+            while x and x % 10 ** (tzc + 1) == 0:
+                tzc += 1
+            H.probe_violation(rep, PROP, 'native normalized(%s) = %s, expected %s' % (H.dec_str(x, s), out, exp), {'kind': 'normalized', 'D': 0, 'tz': tzc}, {'n': x // 10 ** tzc if x else 0, 's0': s}, out)
+    return len(cases)
+
+
 def main(tier):
     rep = H.Report(PROP, tier)
     prog = H.get_program()
@@ -244,13 +269,14 @@ def main(tier):
     for k in range(0, 20):
         tasks.append({'kind': 'pow10', 'k': k, 'fn': 'ten_to_the_u64'})
     Dn = 8 if tier == 'quick' else 12
-    for tz in range(0, (12 if tier == 'quick' else 30) + 1):
+    TZ = 26 if tier == 'quick' else 45           # D + tz reaches past 2^64 and 2^96 (word-count boundaries of the unscaled integer)
+    for tz in range(0, TZ + 1):
         tasks.append({'kind': 'normalized', 'D': Dn, 'tz': tz})
     for k in list(range(0, 46)) + [589, 590, 591] + ([1000, 5000] if tier == 'thorough' else []):
         tasks.append({'kind': 'extend', 'k': k})
     rep.required_labels = {'strips exactly the trailing zeros'}
     rep.bounds = {'digits(): bit lengths': '0..%d (every integer of each bit length, symbolic)' % B, 'ten_to_the*: k': '0..%d + 5 seeded' % Kmax,
-                  'normalized': 'D=%d significant digits x 0..%d trailing zeros' % (Dn, 12 if tier == 'quick' else 30), 'accessors': 'x unbounded, scale any i64'}
+                  'normalized': 'D=%d significant digits x 0..%d trailing zeros' % (Dn, TZ), 'accessors': 'x unbounded, scale any i64'}
     rep.assumptions = ['BigUint::bits() returns the bit length (num-bigint contract)', 'ten_to_the_uint is a closed function of k: it is executed on the MIR for each k (no symbolic input exists)']
     rep.outside = ['bit lengths above the bound']
     sys.stderr.write('[C18] %d tasks\n' % len(tasks))
@@ -259,6 +285,7 @@ def main(tier):
     for v in probe[:6]:
         v['replay_file'] = H.write_replay_file(PROP, v)
         rep.confirmed.append(v)
+    rep.extra['native_normalized_probes'] = normalized_probe(rng, 300 if tier == 'quick' else 3000, rep)
     results = H.run_parallel(tasks, worker, progress=500)
     rep.add(results)
     for r in results:
